@@ -26,7 +26,7 @@ package yaml
 
 //@ func (y *Yaml) GetArraySize() (int, error)
 //@   requires y != nil && deref(y).data != nil
-//@   ensures [C15:size] (deref(deref(y).data).Kind == 2 ==> (result1 == nil && result0 == len(deref(deref(y).data).Content))) && (deref(deref(y).data).Kind != 2 ==> result1 != nil)
+//@   ensures [C15:size] (deref(deref(y).data).Kind == 2 ==> (result1 == nil && result0 == len(deref(deref(y).data).Content))) && (deref(deref(y).data).Kind != 2 ==> (result1 != nil && result0 == -1))
 
 //@ func (y *Yaml) Array() ([]*Yaml, error)
 //@   requires y != nil
@@ -36,5 +36,42 @@ package yaml
 //@     invariant [C15] len(acc) == #i && (forall j int :: 0 <= j && j < #i ==> (acc[j] != nil && ref(acc[j]) <= alloc && deref(acc[j]).data == deref(deref(y).data).Content[j]))
 
 //@ func (y *Yaml) GetIndex(index int) *Yaml
-//@   requires y != nil
+//@   requires y != nil && index >= 0
 //@   ensures [C15:element-or-not-found] result != nil && (((deref(y).data != nil && deref(deref(y).data).Kind == 2 && 0 <= index && index < len(deref(deref(y).data).Content)) ==> deref(result).data == deref(deref(y).data).Content[index]))
+
+// ---- safety of the wrapper (C17): methods that look at the node need a found node ------------------------------------------
+
+//@ func NewYaml(body []byte) (*Yaml, error)
+//@   ensures-assumed [C17:A-YAML] result1 == nil ==> (result0 != nil && deref(result0).data != nil)
+
+//@ func (y *Yaml) IsArray() bool
+//@   requires y != nil && deref(y).data != nil
+//@   ensures [C15:kind] result == (deref(deref(y).data).Kind == 2)
+
+//@ func (y *Yaml) IsMap() bool
+//@   requires y != nil && deref(y).data != nil
+//@   ensures [C15:kind] result == (deref(deref(y).data).Kind == 4)
+
+//@ func (y *Yaml) Pos() (int, int)
+//@   requires y != nil && deref(y).data != nil
+
+//@ func (y *Yaml) Int() (int, error)
+//@   requires y != nil
+
+//@ func (y *Yaml) Bool() (bool, error)
+//@   requires y != nil
+
+//@ func (y *Yaml) Float() (float64, error)
+//@   requires y != nil
+
+//@ func (y *Yaml) Map() (map[string]*Yaml, error)
+//@   requires y != nil
+//@   ensures [C17:mapping] result1 == nil ==> (deref(y).data != nil && deref(deref(y).data).Kind == 4 && result0 != nil)
+//@   loop 1 /* for i, n := range y.data.Content */
+//@     invariant [C17] acc != nil
+
+//@ func (y *Yaml) GetMapKeys() ([]string, error)
+//@   requires y != nil
+
+//@ func (y *Yaml) GetPath(branch ...any) *Yaml
+//@   requires y != nil
